@@ -1,0 +1,111 @@
+//go:build verif
+
+package hsms
+
+import (
+	"sync/atomic"
+	"time"
+)
+
+// This file exists only under the "verif" build tag. It exposes the supervisor's pure state logic
+// and the reconnect backoff function to the external deterministic-simulation harness (white-box
+// engine of property C05, supporting check of C11). It adds no behaviour: with the tag off the
+// package is unchanged.
+
+// VerifSupervisor drives a supervisor WITHOUT its goroutines: the harness plays the run loop, the
+// notifier and every event source itself, one atomic step at a time.
+type VerifSupervisor struct {
+	s        *supervisor
+	handlers atomic.Pointer[[]StateChangeHandler]
+	Reacts   [][2]ConnState
+}
+
+// Event codes as seen by the harness.
+const (
+	VerifEvTCPUp          = int(evTCPUp)
+	VerifEvSelectAccepted = int(evSelectAccepted)
+	VerifEvSelectLost     = int(evSelectLost)
+	VerifEvDisconnect     = int(evDisconnect)
+	VerifEvClose          = int(evClose)
+	VerifEvT7Timeout      = int(evT7Timeout)
+)
+
+// NewVerifSupervisor builds a goroutine-less supervisor with the given events capacity.
+func NewVerifSupervisor(eventsCap int) *VerifSupervisor {
+	v := &VerifSupervisor{}
+	v.s = newSupervisorWithEventsCap(func(prev, next ConnState) {
+		v.Reacts = append(v.Reacts, [2]ConnState{prev, next})
+	}, &v.handlers, eventsCap)
+
+	return v
+}
+
+// State reads the register.
+func (v *VerifSupervisor) State() ConnState { return v.s.State() }
+
+// Room reports whether the events queue can take n more events without blocking.
+func (v *VerifSupervisor) Room(n int) bool { return len(v.s.events)+n <= cap(v.s.events) }
+
+// QueueLen returns the number of queued events.
+func (v *VerifSupervisor) QueueLen() int { return len(v.s.events) }
+
+// CommitConnected / CommitSelected / CommitSelectLost are the synchronous commits (callers must
+// check Room(1) first: with no run goroutine a full queue would block).
+func (v *VerifSupervisor) CommitConnected() bool  { return v.s.CommitConnected() }
+func (v *VerifSupervisor) CommitSelected() bool   { return v.s.CommitSelected() }
+func (v *VerifSupervisor) CommitSelectLost() bool { return v.s.CommitSelectLost() }
+
+// InjectDisconnect / InjectT7 / RequestClose enqueue the asynchronous events (Room(1) first).
+func (v *VerifSupervisor) InjectDisconnect() { v.s.inject(evDisconnect) }
+func (v *VerifSupervisor) InjectT7()         { v.s.inject(evT7Timeout) }
+func (v *VerifSupervisor) RequestClose()     { v.s.inject(evClose) }
+
+// StepOne plays one iteration of run(): dequeue one event and step it. ok is false when the queue
+// is empty.
+func (v *VerifSupervisor) StepOne() (ev int, ok bool) {
+	select {
+	case e := <-v.s.events:
+		v.s.step(e)
+
+		return int(e), true
+	default:
+		return 0, false
+	}
+}
+
+// SetAfterLoadHook installs the existing test seam between step's state load and its store.
+func (v *VerifSupervisor) SetAfterLoadHook(f func(ev int)) {
+	if f == nil {
+		v.s.testHookAfterStateLoad = nil
+
+		return
+	}
+	v.s.testHookAfterStateLoad = func(e fsmEvent) { f(int(e)) }
+}
+
+// PopNotify plays one iteration of the notifier: take one queued notification.
+func (v *VerifSupervisor) PopNotify() (prev, next ConnState, ok bool) {
+	select {
+	case sc := <-v.s.notify:
+		return sc.prev, sc.next, true
+	default:
+		return 0, 0, false
+	}
+}
+
+// NotifyLen returns the number of queued notifications.
+func (v *VerifSupervisor) NotifyLen() int { return len(v.s.notify) }
+
+// Dropped returns the number of coalesced notifications the supervisor reported.
+func (v *VerifSupervisor) Dropped() uint64 { return v.s.droppedNotify.Load() }
+
+// Closed reports the closed latch.
+func (v *VerifSupervisor) Closed() bool { return v.s.closed }
+
+// VerifTransition exposes the pure transition table.
+func VerifTransition(cur ConnState, ev int) (ConnState, bool) { return transition(cur, fsmEvent(ev)) }
+
+// VerifNextBackoffDelay exposes the pure reconnect backoff step.
+func VerifNextBackoffDelay(cur time.Duration, multiplier float64, ceil time.Duration) time.Duration {
+	return nextBackoffDelay(cur, multiplier, ceil)
+}
